@@ -186,6 +186,10 @@ def ref_validating(raw: bytes):
     return detect.validating(raw)
 
 
+def ref_support(raw: bytes):
+    return detect.support(raw)
+
+
 def ff_free(b: bytes) -> bytes:
     return b.replace(b"\xff\xff\xff", b"\xff\xfe\xff")
 
@@ -202,6 +206,9 @@ def detect_strategy():
                 st.binary(max_size=1000).map(ff_free),
                 # decoy marker early in a long stub: that candidate does not validate when the image is pushed out of range
                 st.tuples(st.binary(max_size=40), st.integers(700, 950)).map(lambda t: ff_free(t[0]) + b"\xff\xff\xff" + b"\xcc" * t[1]),
+                # stubs that end in (or contain) a run of ff bytes, e.g. "call $+4" = e8 ff ff ff ff: overlapping markers
+                st.tuples(st.binary(max_size=60), st.integers(1, 9)).map(lambda t: ff_free(t[0]) + b"\xff" * t[1]),
+                st.tuples(st.binary(max_size=30), st.integers(3, 8), st.binary(min_size=1, max_size=30)).map(lambda t: ff_free(t[0]) + b"\xff" * t[1] + b"\x90" + ff_free(t[2])),
             ),
             "mode": st.sampled_from(["both", "marker_only", "size_only"]),
             "bad_size": st.integers(0, 2**32 - 1),
@@ -269,10 +276,20 @@ def detect_execute(case, stats):
             eq(bytes(lib(r.read)), plain, "detect:plaintext", "decoded view of the generated stage")
         else:
             stats.count("ambiguous_stage")
+            # several offsets validate (e.g. overlapping markers in a run of ff bytes): candidates proposed by both
+            # methods are tried first, so a stage whose true offset is the only validating one backed by the marker
+            # AND the size field is still located exactly
+            sup = ref_support(raw)
+            best = [c for c in must if sup.get(c, 0) >= 2]
+            if best == [true_off] and not may:
+                stats.count("ambiguous_resolved_by_both_methods")
+                check(not isinstance(r, Raised) and r.nonce_offset == true_off, "detect:wrong_offset", ctx)
+                lib(r.seek, 0)
+                eq(bytes(lib(r.read)), plain, "detect:plaintext", "decoded view of the generated stage")
     stats.note(
         case,
         case["kind"] == "stage",
-        classes=[case["kind"], cls, case.get("mode", "neg"), "decoy_marker_in_stub" if case["kind"] == "stage" and b"\xff\xff\xff" in case["stub"] else "clean_stub", "long_stub" if case["kind"] == "stage" and len(case["stub"]) > 800 else "short_stub"],
+        classes=[case["kind"], cls, case.get("mode", "neg"), "decoy_marker_in_stub" if case["kind"] == "stage" and b"\xff\xff\xff" in case["stub"] else "ff_run_at_stub_end" if case["kind"] == "stage" and case["stub"].endswith(b"\xff") else "clean_stub", "long_stub" if case["kind"] == "stage" and len(case["stub"]) > 800 else "short_stub"],
     )
 
 
